@@ -308,4 +308,11 @@ theorem C07_server_roundtrip (bad : Bytes → Bool) (m : Bytes) (rest : Bytes) (
 example : (clientDecode (encodeStream [[1, 2], []] [9]) .clean).msgs = [[1, 2], []] :=
   (C07_roundtrip [[1, 2], []] [9] .clean (by decide) (by decide) (by decide)).1
 
+/-- regenerated from client.go / io.go: the only tests made on a size preface are the ones the model makes — negative
+    (client: the trailer frame; decoder: refuse) and above the per-message limit. In particular a preface of exactly 0 is a
+    data frame on the client (an empty message), never the trailer. -/
+theorem C07_size_test_facts :
+    Gen.clientSizeTests = ["sz < 0", "sz > maxMessageSize"] ∧ Gen.decoderSizeTests = ["sz < 0", "sz > maxMessageSize"] := by
+  decide
+
 end Framing
